@@ -81,6 +81,12 @@ def run(chk):
   combine_disambiguation_total(chk, 'C02-R1')
   K.fresh_combine_names(chk, 'C02-R1')
 
+  # emptiness / dependency walkers keep their restrictions on the way down
+  # (e.g. RemoveRulesProvenToBeNil must not look inside combines: a negation or
+  # an aggregate over an empty predicate is not empty)
+  if K.recursive_forwarding(chk, 'C02-R1') < 2:
+    raise AnalysisError('no recursive walker with forwarded optional parameters found')
+
   chk.rule('C02-R2', 'a combine is compiled as a correlated sub-query: the '
            'outer vocabulary and is_combine=True reach TranslateRule / '
            'SingleRuleSql, DecorateCombineRule is applied iff is_combine, '
